@@ -40,8 +40,11 @@ TopOp(items) == LET t == Intended(items) IN t.op
 KeyKind(k) == IF \E j \in 1..Len(k) : k[j] >= 240 THEN "astral" ELSE IF \E j \in 1..Len(k) : k[j] >= 128 THEN "nonascii"
               ELSE IF \E j \in 1..Len(k) : k[j] \in {34, 39, 92} \/ k[j] < 32 \/ k[j] = 127 THEN "escaped" ELSE "plain"
 DiffName(f) == IF f.f = "child" THEN "child(" \o KeyKind(f.k) \o ")" ELSE FName(f)
+\* an accepted text in which a "*" directly follows a sub-path (a name byte, "]", "@", "$"): the product written without blanks
+TightStar(b) == \E j \in 2..Len(b) : b[j] = 42 /\ (b[j - 1] \in NameAcc \/ b[j - 1] \in {93, 64, 36})
 LocusOf(ev, r, kind) ==
     IF ~r.ok THEN <<r.at, Cls(At(ev.b, r.i))>>
+    ELSE IF TightStar(ev.b) /\ kind \in {"rejects-valid", "wrong-denotation"} THEN <<"tight-product-after-path", "-">>
     ELSE IF ev.api = "ParseString"
          THEN (IF kind = "wrong-denotation"
                THEN <<"fragment", IF FirstDiff(r.v, ev.fr) <= Len(r.v) THEN DiffName(r.v[FirstDiff(r.v, ev.fr)]) ELSE "extra">>
